@@ -561,7 +561,7 @@ def fn_rules(ctx, fn):
         names = [c[0] for c in chain]
         base = show((info or {}).get('base', ('?',)))
         pn = fn.hp(hn)
-        labs = [x.split('=')[-1] for x in fn.alts[int(al)][1]]
+        labs = [(re.findall(r'=(ConstSelf|MutSelf|Field)\b', x) or [x.split('=')[-1]])[0] for x in fn.alts[int(al)][1]]
         ok = base == 'function.arguments' and names in (['iter', 'filter', 'map', 'collect'], ['iter', 'filter_map', 'collect']) and r[2] == ',' and labs == ['ConstSelf', 'MutSelf', 'Field'] and pn[0] is not None and pn[0].endswith('Field#0')
         return ok, 'over %s %s' % (base, names)
     # Address arm
@@ -660,6 +660,24 @@ def fn_rules(ctx, fn):
                     iss_ = [c_ for c_, lab in cs if lab is True and is_call_(c_, 'Argument::is_self') and any(
                         isinstance(y, tuple) and y[0] == 'call' and y[3].endswith('Iterator::next') for y in walk(c_))]
                     okf = len(isf_) == 1 and len(iss_) == 1
+                elif len(sk) == 2 and all(len(p_) == 2 for p_ in sk):
+                    # per-arm form: skipped exactly for (ConstSelf, is_field) and (MutSelf, is_field)
+                    seen_v = set()
+                    okp = True
+                    for p_ in sk:
+                        cs = [(strip(expand(g_, c_)) if c_[0] != 'discr' else ('discr', strip(expand(g_, c_[1]))), lab) for c_, lab in p_]
+                        var_ = [lab for c_, lab in cs if c_[0] == 'discr' and any(isinstance(y, tuple) and y[0] == 'call' and y[3].endswith('Iterator::next') for y in walk(c_[1]))]
+                        fld_ = []
+                        for c_, lab in cs:
+                            neg = False
+                            x_ = c_
+                            while x_[0] == 'un' and x_[1] == 'Not':
+                                x_, neg = strip(x_[2]), not neg
+                            if is_call_(x_, 'FunctionBody::is_field'):
+                                fld_.append((lab is True) != neg)
+                        okp = okp and len(var_) == 1 and var_[0] in ('ConstSelf', 'MutSelf') and fld_ == [True]
+                        seen_v |= set(var_)
+                    okf = okp and seen_v == {'ConstSelf', 'MutSelf'}
     if flt:
         # returns true when !upvar0 ; otherwise !is_self(a)
         sw = [s_ for s_ in flt.switches()]
